@@ -154,14 +154,14 @@ func C(gas types.Gas, reasonOrBytes any, resultContext AccumulateArgs) (types.Pa
 		return resultContext.ResultContextY.PartialState, resultContext.ResultContextY.DeferredTransfers, resultContext.ResultContextY.Exception, gas, serviceBlobs, *resultContext.ResultContextY.StorageKeyVal
 	case []byte:
 		var h types.OpaqueHash
+		for _, v := range resultContext.ResultContextX.ServiceBlobs {
+			serviceBlobs = append(serviceBlobs, v)
+		}
 		if len(reasonOrBytes) != len(h) {
 			return resultContext.ResultContextX.PartialState, resultContext.ResultContextX.DeferredTransfers, resultContext.ResultContextX.Exception, gas, serviceBlobs, *resultContext.ResultContextX.StorageKeyVal
 		}
 		copy(h[:], reasonOrBytes[:len(h)])
 		opaqueHash := &h
-		for _, v := range resultContext.ResultContextX.ServiceBlobs {
-			serviceBlobs = append(serviceBlobs, v)
-		}
 		return resultContext.ResultContextX.PartialState, resultContext.ResultContextX.DeferredTransfers, opaqueHash, gas, serviceBlobs, *resultContext.ResultContextX.StorageKeyVal
 	default:
 		if reasonOrBytes == OUT_OF_GAS || reasonOrBytes == PANIC {
